@@ -82,9 +82,17 @@ def has_prev_state(atoms, state_type: str) -> bool:
 
 
 def delegation_target(value) -> Optional[ast.Call]:
-    if isinstance(value, ast.Call) and isinstance(value.func, ast.Attribute) and value.func.attr == "enter":
-        return value
-    return None
+    from .rules import enter_delegate
+    return enter_delegate(value)
+
+
+# an activity may hand the entry over to a sibling activity built for the same entities, whose own guards
+# (location, membership) then apply to the same target: table of (delegating class -> delegate builds accepted)
+DELEGATES = {
+    "DispatchStation": ("ChargingStation.build(SELF.vehicle_id, SELF.station_id, SELF.charger_id)",
+                        "ChargeQueueing.build(SELF.vehicle_id, SELF.station_id, SELF.charger_id, "),
+    "DispatchBase": ("ReserveBase.build(SELF.vehicle_id, SELF.base_id)", "ChargingBase.build(SELF.vehicle_id, SELF.base_id, "),
+}
 
 
 def rule_enter_guards(ctx: Ctx, which: str, clause: str):
@@ -106,12 +114,12 @@ def rule_enter_guards(ctx: Ctx, which: str, clause: str):
                 n += 1
                 recv = states.ndump(deleg.func.value, ren)
                 args = [states.ndump(a, ren) for a in deleg.args]
-                ok = False
-                if sc.name == "DispatchStation":
-                    ok = recv == "ChargingStation.build(SELF.vehicle_id, SELF.station_id, SELF.charger_id)" and args[:2] == ["SIM", "ENV"]
-                ctx.check(ok, clause, f"GD.{which}", f"{here}: delegates to ChargingStation.enter for the same vehicle, station and plug", sc.enter, m.path.end,
-                          why_ok="ChargingStation.enter's own guards apply to the same entities",
-                          why_bad=f"delegates to {recv}.enter({', '.join(args)})", construct=f"{sc.name}.enter:delegate-shape")
+                if which == "PREV":
+                    continue
+                ok = any(recv == d or (d.endswith(", ") and recv.startswith(d)) for d in DELEGATES.get(sc.name, ())) and args[:2] == ["SIM", "ENV"]
+                ctx.check(ok, clause, f"GD.{which}", f"{here}: entry handed over to a sibling activity built for the same vehicle and target (its own guards apply)", sc.enter, m.path.end,
+                          why_ok=f"delegate {recv[:60]}",
+                          why_bad=f"delegates to {recv}.enter({', '.join(args)}): not an accepted sibling for the same entities", construct=f"{sc.name}.enter:delegate-shape")
                 continue
             if which == "LOC" and loc is not None:
                 n += 1
